@@ -89,6 +89,16 @@ theorem accepted_pages_tile_the_chunk (file : Array Nat) (fuel start stop : Nat)
   subst hps
   exact ⟨ht, hall⟩
 
+/-- **…and the value counts it reports add up**: when the page loop `decodePages` accepts the pages of a chunk, the row count
+    it reports is the sum of `num_values` over the data pages (a dictionary page contributes none) — which `decodeChunk`
+    then requires to equal `ColumnMetaData.num_values` and the row group's `num_rows`.  Proved over every branch of
+    `decodePage` (dictionary, v1, v2). -/
+theorem accepted_pages_count_rows (leaf : Leaf) (pages : List (PageInfo × List Nat)) (acc : PageAcc)
+    (h : decodePages leaf {} pages = .ok acc) :
+    acc.count = ((pages.filter (fun x => x.1.ptypeTag != 2)).map (fun x => x.1.numValues)).sum := by
+  have := decodePages_count leaf pages {} acc h
+  simpa using this
+
 /-! ### non-vacuity -/
 example : levelsV1 1 5 (leBytes 4 2 ++ encodeRuns 1 [Run.bp [1, 0, 1, 1, 0, 0, 0, 0]] ++ [9])
     = some ([1, 0, 1, 1, 0], [9]) := by decide +kernel
